@@ -68,6 +68,27 @@ def resource_ok(spec):
     return True
 
 
+QUANTITY_BORDERS = [2 ** 31 - 2, 2 ** 31 - 1, 2 ** 31, 2 ** 31 + 1, 2 ** 32 - 1, 2 ** 32, 2 ** 32 + 5, 2 ** 63 - 1, 2 ** 63, 2 ** 63 + 5, 2 ** 64 - 1, 2 ** 64, 2 ** 64 + 5, 10 ** 10, 10 ** 19]
+
+
+def quantity_verdict(spec):
+    """for a well-formed spec with a big width / precision: 'reject' when CPython raises before formatting (a width that does
+    not fit Py_ssize_t: 'Too many decimal digits'; a precision above INT_MAX: 'precision too big'), 'parse_only' when it would
+    go on to build a string of that size (only the parse is exercised then), None when the quantities are small"""
+    f = spec_fields(spec)
+    if f is None:
+        return None
+    w = int(f['width']) if f['width'] else None
+    p = int(f['prec']) if f['prec'] else None
+    if (w is not None and w > 2 ** 63 - 1) or (p is not None and p > 2 ** 63 - 1):
+        return 'reject'
+    if p is not None and p > 2 ** 31 - 1:
+        return 'reject'
+    if (w is not None and w > 999) or (p is not None and p > 999):
+        return 'parse_only'
+    return None
+
+
 def py_format(kind, value, spec):
     try:
         return ('ok', format(value, spec))
@@ -134,13 +155,31 @@ class C18(Property):
                                 ('float', bits(1e-7)), ('str', 'héllo'), ('str', ''), ('bool', True), ('bool', False)):
                 yield {'spec': spec, 'kind': kind, 'value': value}
         # the 'c' conversion at the borders of the code point range (and of the UTF-8 length classes, the surrogates)
+        for q in QUANTITY_BORDERS:
+            for spec in ('%dd' % q, '.%df' % q, '>%ds' % q, '0%d.%dg' % (q, q), '+%dx' % q):
+                v = quantity_verdict(spec)
+                if v == 'parse_only':
+                    yield {'spec': spec, 'kind': 'none', 'value': ''}
+                elif v == 'reject':
+                    yield {'spec': spec, 'kind': 'int' if spec[-1] in 'dx' else 'float' if spec[-1] in 'fg' else 'str', 'value': '7' if spec[-1] in 'dx' else bits(1.5) if spec[-1] in 'fg' else 'ab'}
         for v in CODE_POINT_BORDERS:
             for spec in ('c', '3c', '<4c', 'x^5c', '0c'):
                 yield {'spec': spec, 'kind': 'int', 'value': str(v)}
 
     def gen(self, cs, ctx):
+        if cs.bool(10):
+            # width / precision at the borders of the machine-integer ranges
+            q = str(cs.pick(QUANTITY_BORDERS) + cs.pick([0, 0, 1, -1]))
+            spec = cs.pick(['', '>', '0', '+', 'x<', '#']) + (q if cs.bool() else cs.pick(['', '5']) + '.' + q) + cs.pick(['d', 'f', 's', 'x', 'g', '', 'e'])
+            v = quantity_verdict(spec)
+            if v == 'parse_only':
+                return {'spec': spec, 'kind': 'none', 'value': ''}
+            if v == 'reject':
+                kind = cs.pick(['int', 'float', 'str'])
+                return {'spec': spec, 'kind': kind, 'value': {'int': '7', 'float': bits(1.5), 'str': 'ab'}[kind]}
+            return None
         spec = gen_spec(cs)
-        if not resource_ok(spec):
+        if not resource_ok(spec) and quantity_verdict(spec) != 'reject':
             ctx.count('gen_resource_limited')
             return None
         k = cs.weighted([100, 90, 40, 26])
@@ -186,6 +225,15 @@ class C18(Property):
 
     def check(self, case, ctx):
         sut = ctx.sut('A')
+        if case['kind'] == 'none':
+            # a quantity too large to format on either side but within what CPython parses: the spec must parse
+            r = sut.call('format_spec', spec=case['spec'], kind='none', value='')
+            ctx.count('big_quantity_parse_only')
+            if 'panic' in r or 'crash' in r:
+                return Failure('panic', case=case, reply=r)
+            if quantity_verdict(case['spec']) == 'parse_only' and 'parsed' not in r:
+                return Failure('rejects_valid', case=case, reply=r, python='(spec accepted; not formatted)')
+            return None
         value = self.pyvalue(case)
         exp = py_format(case['kind'], value, case['spec'])
         r = sut.call('format_spec', spec=case['spec'], kind=case['kind'], value=case['value'])
@@ -218,6 +266,8 @@ class C18(Property):
             return None
         if f['z']:
             return 'C18-F2'
+        if kind == 'str' and f['prec'] and int(f['prec']) > 2 ** 31 - 1:
+            return 'C18-F8'
         if kind == 'str' and (f['align'] == '=' or f['zero']):
             return 'C18-F1'
         if f['type'] == 'c' and f['width'] and kind in ('int', 'bool') and kind == 'int' and int(case['value']) >= 128:
@@ -233,7 +283,7 @@ class C18(Property):
         return r if r in open_ids('C18') else None
 
     KINDS = {'C18-F7': ('accepts_invalid',), 'C18-F2': ('rejects_valid',), 'C18-F1': ('accepts_invalid', 'wrong_text'),
-             'C18-F3': ('wrong_text',), 'C18-F4': ('wrong_text',), 'C18-F5': ('wrong_text',)}
+             'C18-F3': ('wrong_text',), 'C18-F4': ('wrong_text',), 'C18-F5': ('wrong_text',), 'C18-F8': ('rejects_valid',)}
 
     def known(self, case, f, ctx):
         r = self.region(case)
